@@ -192,6 +192,7 @@ def rand_group(rng, kind, nreq):
         items.append(it)
         if len(items) == k:
             break
+    catch_all = kind != "policy" and rng.random() < 0.08
     reqs, rs = [], set()
     tries = 0
     while len(reqs) < nreq and tries < 300:
@@ -224,6 +225,9 @@ def rand_group(rng, kind, nreq):
             continue
         rs.add(key)
         reqs.append({"m": m, "h": h, "p": p, "ts": ts})
+    if catch_all:
+        # a flow for every URL ("*"): the engine matches everything, the proxy must be told to manage everything
+        items.append({"name": "f%d" % (len(items) + 1), "m": rng.choice([[], ["GET"]]), "h": ["*"], "p": []})
     return {"kind": kind, "items": items, "reqs": reqs}
 
 
@@ -298,6 +302,7 @@ def run(ctx):
     # (3) spec -> code
     reals = execute(ctx, binary, groups, "gen")
     drift, blocks, kinds, seen, nts = 0, [], [], set(), 0
+    classes = ctx.cov.setdefault("input_classes", {})
     frac = min(1.0, (5000.0 if not T else 50000.0) / max(1, ncases))
     for g, real in zip(groups, reals):
         if real["err"]:
@@ -305,6 +310,8 @@ def run(ctx):
         pick = set()
         for ri, (rq, exp, out) in enumerate(zip(g["reqs"], g["exp"], real["outs"])):
             ctx.cov["evaluations"] += 1
+            for c in exp["cls"]:
+                classes[c + "@" + g["kind"]] = classes.get(c + "@" + g["kind"], 0) + 1
             e_real, p_real = len(out["engine"]) > 0, len(out["proxy"]) > 0 or real["manage_all"]
             if (e_real, p_real) != (exp["engine"], exp["proxy"]):
                 drift += 1
@@ -324,6 +331,12 @@ def run(ctx):
             kinds.append(g["kind"])
     ctx.log("executed %d cases; %d real verdict pairs differ from the model's; %d in the known trailing-slash class; %d blocks to validate"
             % (ncases, drift, nts, len(blocks)))
+    need = [c + "@" + k for k in ("policy", "flow", "engine")
+            for c in ("engine-match", "proxy-over-match", "special-char-matched", "odd-param-name-matched", "wildcard-zero-tail", "trailing-slash-matched")
+            if not (c == "wildcard-zero-tail" and k != "policy")] + ["no-method-filter-HEAD@flow", "no-method-filter-HEAD@engine"]
+    missing = [c for c in need if not classes.get(c)]
+    if missing:
+        raise Broken("generated cases do not cover the input classes %s (vacuous replay)" % missing)
     if drift:
         ctx.cov["model_drift"] = True
         ctx.notes.append("%d real verdict pairs differ from ManagedI's (judged by trace validation)" % drift)
